@@ -22,3 +22,17 @@ Definition mse_distance (sigmoid : bool) (a b : list Qc) : result Qc :=
            Ok (qmean (sqdiffs a' b'))
        end.
 End Mse.
+
+(* ---- vocabulary of the translation of MSEDistance.distance (harness/src_functions.py, entry C07_MSE).  No proofs here. *)
+(* np.mean(x) of a 1-d array: NaN for an empty one (tag 6, as in mse_distance) *)
+Definition np_mean (x : list Qc) : result Qc :=
+  match x with [] => Err 6%Z | _ => Ok (qmean x) end.
+(* x - y on 1-d arrays: elementwise on equal lengths; an array of ONE item is broadcast against the other; any other
+   pair of lengths is numpy's ValueError (tag 7) *)
+Definition vec_sub (x y : list Qc) : result (list Qc) :=
+  if Nat.eqb (length x) (length y) then Ok (map (fun p => fst p - snd p) (combine x y))
+  else match x, y with
+       | [u], _ => Ok (map (fun w => u - w) y)
+       | _, [w] => Ok (map (fun u => u - w) x)
+       | _, _ => Err 7%Z
+       end.
